@@ -207,3 +207,99 @@ impl<D: graaf::Outdegree> graaf::Outdegree for Wrapped<D> {
         self.0.outdegree(u)
     }
 }
+
+
+// ---------------------------------------------------------------------------
+// A user-defined representation: the traits promise no order for `vertices()`,
+// `out_neighbors()` or `arcs()` and no particular `size_hint`, so this one
+// enumerates all three scrambled and reports honest but loose hints.
+// ---------------------------------------------------------------------------
+
+pub struct Scrambled<'a> {
+    m: &'a UModel,
+    pub order: Vec<usize>,
+    reverse_rows: bool,
+    salt: usize,
+}
+
+impl<'a> Scrambled<'a> {
+    pub fn new(m: &'a UModel, salt: usize) -> Self {
+        let mut order = m.vertices();
+        match salt % 3 {
+            0 => order.reverse(),
+            1 => {
+                let k = salt % order.len().max(1);
+                order.rotate_left(k);
+            }
+            _ => order.sort_by_key(|&v| (v.wrapping_mul(2_654_435_761).wrapping_add(salt)) % 1013),
+        }
+        Self { m, order, reverse_rows: salt % 2 == 1, salt }
+    }
+
+    /// Another order for rows and arcs, leaving the vertex order alone.
+    pub fn arc_order(mut self, arc_salt: usize) -> Self {
+        self.reverse_rows = arc_salt % 2 == 1;
+        self.salt = self.salt - self.salt % 5 + arc_salt % 5;
+        self
+    }
+
+    fn row(&self, u: usize) -> Vec<usize> {
+        let mut o = self.m.out(u);
+        if self.reverse_rows {
+            o.reverse();
+        }
+        o
+    }
+
+    /// arcs() in this representation's own order
+    pub fn arc_list(&self) -> Vec<(usize, usize)> {
+        let mut a: Vec<(usize, usize)> = self.order.iter().flat_map(|&u| self.row(u).into_iter().map(move |v| (u, v))).collect();
+        if self.salt % 5 == 4 {
+            a.reverse();
+        }
+        a
+    }
+}
+
+impl Vertices for Scrambled<'_> {
+    fn vertices(&self) -> impl Iterator<Item = usize> {
+        let h = crate::gen::hint_pick(self.order.len(), self.salt / 3);
+        crate::gen::hinted(self.order.clone(), h)
+    }
+}
+
+impl graaf::OutNeighbors for Scrambled<'_> {
+    fn out_neighbors(&self, u: usize) -> impl Iterator<Item = usize> {
+        let o = self.row(u);
+        let h = crate::gen::hint_pick(o.len(), self.salt / 3 + u);
+        crate::gen::hinted(o, h)
+    }
+}
+
+impl Arcs for Scrambled<'_> {
+    fn arcs(&self) -> impl Iterator<Item = (usize, usize)> {
+        let a = self.arc_list();
+        let h = crate::gen::hint_pick(a.len(), self.salt / 3 + 1);
+        crate::gen::hinted(a, h)
+    }
+}
+
+impl graaf::HasArc for Scrambled<'_> {
+    fn has_arc(&self, u: usize, v: usize) -> bool {
+        self.m.has(u, v)
+    }
+}
+
+impl graaf::Indegree for Scrambled<'_> {
+    fn indegree(&self, v: usize) -> usize {
+        assert!(self.m.v.contains(&v), "v = {v} isn't in the digraph");
+        self.m.indeg(v)
+    }
+}
+
+impl graaf::Outdegree for Scrambled<'_> {
+    fn outdegree(&self, u: usize) -> usize {
+        assert!(self.m.v.contains(&u), "u = {u} isn't in the digraph");
+        self.m.outdeg(u)
+    }
+}
